@@ -27,6 +27,7 @@ fn main()
 		"syntax-tree" => syntaxs::stream(&args[2]),
 		"lex" => delta::lex_stream(&args[2]),
 		"delta-tree" => delta::stream(&args[2]),
+		"delta-total" => delta::total_stream(&args[2]),
 		"diag" => diag::stream(&args[2]),
 		"expand" => expand::stream(&args[2]),
 		"exec" => exec::stream(&args[2], true, false, false),
